@@ -110,6 +110,8 @@ def run_case(seed, tier, rec, st):
             rng.shuffle(vals_override)
         else:
             t = tg.type(rng.randint(0, 2))
+            if tg.allow_field_engine and tg.allow_named and rng.random() < 0.03:
+                t = tg.nt_engine_dataclass()          # NamedTuple engine lattice (Config option x field option x position)
             if rng.random() < 0.3 and tast.strip(t)[0] not in ("opt", "none", "any", "union"):
                 t = ("ann", ("opt", t, "Optional"), (repr("meta"),))
         tsrc = t[1] if t[0] == "raw" else tast.render(t)
